@@ -137,6 +137,16 @@ def spans_of(ctx, events):
     return out
 
 
+def boundary_cuts(R, ctx, case, full_events, n=4):
+    """cuts at the offsets where a structural event sits (container headers) and at field ends"""
+    sp = spans_of(ctx, full_events)
+    L = len(case[2])
+    node_offs = sorted(set(a for (e, a, b) in sp if a == b and 0 < a < L))
+    end_offs = sorted(set(b for (e, a, b) in sp if b > a and 0 < b < L))
+    picks = set(R.rng.sample(node_offs, min(len(node_offs), n)) + R.rng.sample(end_offs, min(len(end_offs), 2)))
+    return [("cut", case[1], case[2][:k], {"k": k, "full": case[2]}) for k in sorted(picks)]
+
+
 def last_cc(events):
     cc = "-"
     for e in events:
@@ -273,7 +283,7 @@ def c05(R, ctx):
         if not full_res["1"][1][k].endswith("ACC"):
             continue
         ex = ctx["tier"] != "quick" and len(b[2]) <= 80
-        for c in C.cuts(b, n=3, exhaustive=ex):
+        for c in C.cuts(b, n=3, exhaustive=ex) + boundary_cuts(R, ctx, b, split_result(full_res["1"][1][k])[0]):
             cases.append(c)
             origin.append(k)
         if b[1] != "S":
@@ -461,7 +471,7 @@ def c10(R, ctx):
         cases.append(b)
         origin.append(k)
         ex = ctx["tier"] != "quick" and len(b[2]) <= 80
-        for c in C.cuts(b, n=3, exhaustive=ex):
+        for c in C.cuts(b, n=3, exhaustive=ex) + boundary_cuts(R, ctx, b, split_result(full["1"][1][k])[0]):
             cases.append(c)
             origin.append(k)
     res, _ = engine(R, ctx, cases, modes=("1",))
@@ -806,4 +816,423 @@ def c16(R, ctx):
         if k not in flagged:
             R.violation("correspondence:C16", "model and implementation differ on `%s`: impl=%r model=%r" % (reqs[k], impl[k][:200], model[k][:200]),
                         {"request": reqs[k], "implementation": impl[k], "model": model[k], "theorem": "correspondence Model/Ints.v <-> base_type.py/values.py"}, found_input=False)
+            break
+
+
+# ----------------------------------------------------------------------------- C12
+
+
+@runner("C12")
+def c12(R, ctx):
+    C = Cases(R.rng, ctx["tier"])
+    cur = ctx["tables"]
+    if cur["cache"] != {"k": "lru", "size": None}:
+        R.notes.append("memo of TPMS_PARAMS.encrypted(): %r" % (cur["cache"],))
+    # messages with encrypted parameter areas of different commands, plus ordinary ones
+    tpm2b_first = []
+    for cc, tkey in cur["cmd_params"]:
+        t = cur["types"][tkey]
+        if t["fields"] and t["fields"][0]["k"] == "plain" and "t" in t["fields"][0]["t"] and cur["types"][t["fields"][0]["t"]["t"]]["k"].startswith("tpm2b"):
+            tpm2b_first.append(cc)
+    pool = []
+    for cc in R.rng.sample(tpm2b_first, min(len(tpm2b_first), 14 if ctx["tier"] == "quick" else 40)):
+        c, ci = C.G.command(cc, nsessions=R.rng.choice([1, 2]), decrypt=True)
+        pool.append(("C", c))
+        r, ri = C.G.response(cc, enc=True)
+        pool.append(("R:%d:1" % cc, r))
+    for _ in range(10):
+        c, ci, r, ri = C.G.pair()
+        pool.append(("C", c))
+        pool.append(("S", c + r))
+    reqs = []
+    hist = []
+    for _ in range(60 if ctx["tier"] == "quick" else 600):
+        k = R.rng.choice([2, 2, 3, 3, 4])
+        items = [R.rng.choice(pool) for _ in range(k)]
+        if R.rng.random() < 0.5:
+            items.append(items[0])
+        hist.append(items)
+        reqs.append("hist " + ",".join("%s~%s" % (root, h(b)) for root, b in items))
+    res = common.run_impl("impl_worker", reqs, nproc=8)
+    enc_hist = 0
+    for items, r, q in zip(hist, res, reqs):
+        if sum(1 for root, b in items if root != "S") >= 2:
+            enc_hist += 1
+        if not r.startswith("OK"):
+            R.violation("c12:" + r.split(" ")[1], "decoding the same input again in one process gives a result that does not compare equal (%s); history of %d decodes"
+                        % (r, len(items)), {"history": [{"root": root, "input_hex": h(b)} for root, b in items], "result": r,
+                                            "how": "harness/impl_worker.py: " + q[:200]})
+    R.coverage.update({"evaluations": len(reqs), "distinct_nontrivial": len(set(reqs)),
+                       "rule": "histories of 2-5 decodes drawn from messages with encrypted parameter areas of different commands (commands and responses) and ordinary pairs; each history is run sequentially twice and step-wise interleaved (round robin over next()); results compared with Python == (events, by-product objects, objects rebuilt from events); distinct = distinct histories",
+                       "histories_with_two_or_more_encrypted_areas": enc_hist,
+                       "samples": [{"history": reqs[0][:300], "result": res[0]}],
+                       "correspondence_compares": "Model/Cache.v capacity = lru_cache(maxsize) read from /repo by the translator: %r" % (cur["cache"],)})
+
+
+# ----------------------------------------------------------------------------- C07
+
+
+def first_warning(events):
+    for j, e in enumerate(events):
+        if e.startswith("W "):
+            return j
+    return None
+
+
+@runner("C07")
+def c07(R, ctx):
+    C = Cases(R.rng, ctx["tier"])
+    base = C.wellformed(per_type=1, per_cc=1, corpus_n=40) + C.streams(n=10)
+    cases = list(base) if ctx["tier"] != "quick" else R.rng.sample(base, min(len(base), 250))
+    for b in R.rng.sample(base, min(len(base), 300)):
+        cases += C.size_faults(b, per=1) + C.value_faults(b, per=1) + C.cuts(b, n=1)[:2]
+        if b[1] != "S":
+            cases += C.suffixes(b)
+    cases += C.arbitrary(n=250)
+    res, _ = engine(R, ctx, cases, modes=("1", "0"))
+    reqs1, impl1, model1 = res["1"]
+    reqs0, impl0, model0 = res["0"]
+    flagged = set()
+    for k, c in enumerate(cases):
+        se, so = split_result(no_pulled(impl1[k]))
+        we, wo = split_result(no_pulled(impl0[k]))
+        if so.startswith("CRASH") or wo.startswith("CRASH"):
+            continue  # internal errors are C06's / C08's subject
+        fw = first_warning(we)
+        problem = None
+        if so == "ACC":
+            if fw is not None or we != se or wo != "ACC":
+                problem = "strict accepts, warn mode %s" % ("emits a warning" if fw is not None else "emits different events" if we != se else "ends with " + wo)
+        else:
+            if so.startswith("RAISE"):
+                err = so[len("RAISE "):].rsplit(" rem=", 1)[0]
+            elif so.startswith("DEP"):
+                err = "D " + so[4:]
+            else:
+                err = "S " + so[4:]
+            if fw is None:
+                # no warning: warn mode must have raised the same error itself (layout unknowable)
+                if wo.startswith("RAISE") and wo[len("RAISE "):].rsplit(" rem=", 1)[0] == err and we == se and err.split(" ")[-1] in ("sel", "cc"):
+                    pass
+                else:
+                    problem = "strict raises %r, warn mode emits no warning and ends with %r" % (err, wo)
+            else:
+                before = we[:fw]
+                want_before = se + ([before[-1]] if err.startswith("V ") and len(before) == len(se) + 1 else [])
+                if err.startswith("V ") and len(before) != len(se) + 1:
+                    problem = "value error: warn mode must emit the offending event and then the warning (events before first warning: %d, strict events: %d)" % (len(before), len(se))
+                elif before != want_before:
+                    problem = "events before the first warning differ from the events strict mode emitted before raising"
+                elif we[fw] != "W " + err:
+                    problem = "first warning is %r, strict mode raised %r" % (we[fw], err)
+                elif err.startswith("V "):
+                    ev = before[-1].split(" ")
+                    ef = err.split(" ")
+                    if ev[1] != ef[1] or ev[3] != ef[3]:
+                        problem = "offending event %r does not match the value error %r" % (before[-1], err)
+        if problem is None and fw is None and wo == "ACC" and so != "ACC":
+            problem = "warn mode emits no warning but strict mode ends with %r" % so
+        if problem:
+            flagged.add(k)
+            R.violation("c07:" + problem.split(",")[0].split(":")[0][:40].replace(" ", "-"), "%s (%s)" % (problem, c[1]),
+                        replay_of(c, "1", impl1[k], {"warn_mode": impl0[k]}))
+    for (reqs, impl, model) in ((reqs1, impl1, model1), (reqs0, impl0, model0)):
+        bad = correspondence(R, ctx, reqs, impl, model)
+        report_disagreements(R, ctx, reqs, impl, model, bad, flagged)
+    distribution(R, cases, impl1)
+    R.coverage["warn_outcomes"] = dict(Counter(err_class(split_result(x)[1]) for x in impl0))
+
+
+# ----------------------------------------------------------------------------- C03
+
+
+def size_field_event(events, cpath):
+    for e in events:
+        f = e.split(" ")
+        if f[0] == "E" and f[1] == cpath:
+            return f
+    return None
+
+
+@runner("C03")
+def c03(R, ctx):
+    C = Cases(R.rng, ctx["tier"])
+    base = C.wellformed(per_type=1, per_cc=1, corpus_n=60)
+    cases = []
+    for b in base:
+        cases += C.size_faults(b, per=3)
+    cases += R.rng.sample(base, min(len(base), 200)) + C.arbitrary(n=150)
+    res, spec = engine(R, ctx, cases, modes=("1",), need_spec=True)
+    reqs, impl, model = res["1"]
+    flagged = set()
+    kinds = Counter()
+    for k, c in enumerate(cases):
+        ie, io = split_result(impl[k])
+        problem = None
+        if io == "ACC":
+            if spec is not None and spec[k] == "NOTWF":
+                problem = "accepted, but some size field does not equal the length of the region it governs (the input does not parse with exact sizes)"
+        elif io.startswith("RAISE") and io.split(" ")[1] in ("X", "A", "U"):
+            f = io.split(" ")
+            kind = f[1]
+            kinds[kind] += 1
+            cpath, cmax, calready = f[2], f[3], int(f[4])
+            sf = size_field_event(ie, cpath)
+            sp = spans_of(ctx, ie)
+            if cpath == "-" or cmax == "-":
+                problem = "error does not name the violated size field and its limit"
+            elif sf is None:
+                problem = "the violated size field %s was not emitted before the error" % cpath
+            elif sf[3] != cmax:
+                problem = "reported limit %s differs from the value %s read at %s" % (cmax, sf[3], cpath)
+            else:
+                # bytes counted so far = bytes of the fields emitted since the region started
+                start = None
+                for (e, a, b) in sp:
+                    if e.split(" ")[1] == cpath:
+                        start = b
+                top = cpath in ("/.commandSize", "/.responseSize")
+                total = sp[-1][2] if sp else 0
+                counted = total if top else total - (start or 0)
+                if kind == "A":
+                    # raised when the inner size field was read: that field is the last one emitted
+                    viol, val, by = f[5], int(f[6]), int(f[7])
+                    last = [e for e in ie if e.startswith("E ") and e.split(" ")[3] != "..."][-1].split(" ")
+                    if last[1] != viol or int(last[3]) != val:
+                        problem = "anticipated error names %s=%d but the last field read is %s=%s" % (viol, val, last[1], last[3])
+                    elif calready != counted or by != calready + val - int(cmax) or by <= 0:
+                        problem = "anticipated error arithmetic: already=%d (fields emitted in the region: %d) value=%d limit=%s by=%d" % (calready, counted, val, cmax, by)
+                elif kind == "X":
+                    viol, by = f[5], int(f[6])
+                    if calready != counted or by <= 0 or by - max(0, calready - int(cmax)) > 8:
+                        problem = "exceeded error arithmetic: already=%d (fields emitted in the region: %d) limit=%s by=%d" % (calready, counted, cmax, by)
+                    elif any(e.split(" ")[1] == viol for e in ie if e.startswith("E ")):
+                        problem = "the offending field %s was already emitted" % viol
+                else:
+                    if calready != counted or not (calready < int(cmax)):
+                        problem = "subceeded error arithmetic: already=%d (fields emitted in the region: %d) limit=%s" % (calready, counted, cmax)
+        if problem:
+            flagged.add(k)
+            R.violation("c03:" + problem.split(":")[0].split(",")[0][:48].replace(" ", "-"), "%s: %s" % (c[1], problem), replay_of(c, "1", impl[k], {"fault": c[3] if c[0].startswith("fault") else None}))
+    R.coverage["size_errors_checked"] = dict(kinds)
+    bad = correspondence(R, ctx, reqs, impl, model, what="events, outcome, every attribute of the size error (path, limit, counted, offender, by), remaining bytes")
+    report_disagreements(R, ctx, reqs, impl, model, bad, flagged)
+    distribution(R, cases, impl)
+
+
+# ----------------------------------------------------------------------------- C09
+
+
+@runner("C09")
+def c09(R, ctx):
+    C = Cases(R.rng, ctx["tier"])
+    streams = C.streams(n=60, maxpairs=4 if ctx["tier"] == "quick" else 8)
+    reqs = ["stream9 " + ",".join(h(p) for p in s[3]["parts"]) for s in streams]
+    res = common.run_impl("impl_worker", reqs)
+    ok = 0
+    for s, r, q in zip(streams, res, reqs):
+        if r.startswith("OK"):
+            ok += 1
+        elif r.startswith("BAD"):
+            R.violation("c09:" + r.split(" ")[1], "stream of %d messages does not decode as its messages one by one: %s" % (len(s[3]["parts"]), r[:300]),
+                        {"parts_hex": [h(p) for p in s[3]["parts"]], "result": r, "how": "harness/impl_worker.py: " + q[:120] + "..."})
+    R.coverage["streams_equal_to_individual_decodes"] = ok
+    r1, _ = engine(R, ctx, streams, modes=("1",))
+    reqs1, impl1, model1 = r1["1"]
+    bad = correspondence(R, ctx, reqs1, impl1, model1)
+    report_disagreements(R, ctx, reqs1, impl1, model1, bad, set())
+    distribution(R, streams, impl1)
+    R.coverage["messages_per_stream"] = dict(Counter(len(s[3]["parts"]) for s in streams))
+
+
+# ----------------------------------------------------------------------------- C11
+
+
+@runner("C11")
+def c11(R, ctx):
+    C = Cases(R.rng, ctx["tier"])
+    cases = C.wellformed(per_type=1, per_cc=1, corpus_n=80)
+    cases = [c for c in cases if c[1] != "S"]
+    reqs = ["objs %s %s" % (c[1], h(c[2])) for c in cases]
+    res = common.run_impl("impl_worker", reqs)
+    ok = na = 0
+    for c, r in zip(cases, res):
+        if r.startswith("OK"):
+            ok += 1
+        elif r.startswith("NA"):
+            na += 1
+        else:
+            sig = "c11:" + "-".join(r.split(" ")[1:2])
+            R.violation(sig, "%s: %s" % (c[1], r[:300]), replay_of(c, "1", r, {"how": "harness/impl_worker.py: objs %s %s" % (c[1], h(c[2]))}))
+    R.coverage["conversions_checked"] = ok
+    R.coverage["not_accepted"] = na
+    oreqs = ["obj cur %s %s" % (c[1], h(c[2])) for c in cases]
+    impl = common.run_impl("impl_worker", oreqs)
+    model = common.run_model(oreqs) if ctx["driver_ok"] else impl
+    bad = [k for k in range(len(oreqs)) if impl[k] != model[k]]
+    R.coverage.update({"correspondence_cases": len(oreqs), "correspondence_disagreements": len(bad),
+                       "correspondence_compares": "the decoder's by-product object (class identities, field names, values, None-ness)"})
+    for k in bad:
+        R.violation("correspondence:C11", "model and implementation build different objects for `%s`" % oreqs[k][:200],
+                    {"request": oreqs[k], "implementation": impl[k][:2000], "model": model[k][:2000], "theorem": "correspondence by-product object"}, found_input=False)
+        break
+    r1, _ = engine(R, ctx, cases, modes=("1",))
+    distribution(R, cases, r1["1"][1])
+
+
+# ----------------------------------------------------------------------------- C15
+
+
+def render_hex(rng, b):
+    out = bytearray()
+    ws = [b" ", b"\n", b"\t", b"\r\n", b"", b"", b"", b"  ", b"\x0b", b"\x0c"]
+    out += rng.choice(ws)
+    for x in b:
+        s = "%02x" % x
+        if rng.random() < 0.4:
+            s = s.upper()
+        out += s[0].encode()
+        if rng.random() < 0.1:
+            out += rng.choice(ws)
+        out += s[1].encode()
+        if rng.random() < 0.35:
+            out += rng.choice(ws)
+    return bytes(out)
+
+
+def render_swtpm(rng, parts, free="plain"):
+    """parts: list of message byte strings (command, response, ...)"""
+    out = bytearray()
+    nl = b"\r\n" if rng.random() < 0.3 else b"\n"
+    if free == "plain":
+        out += rng.choice([b"", b"libtpms/tpm2 log\n", b"Data client disconnected\n", b"Ctrl Cmd: length 4\n00 00 00 10\nCtrl Rsp: length 4\n00 00 00 00\n"])
+    elif free == "withS":
+        out += rng.choice([b"Starting vTPM; SW version 0.7\n", b"SS", b"S SWTPM", b"SWTP\nSWTPM_I\n"])
+    for i, m in enumerate(parts):
+        out += b"SWTPM_IO_Read: length %d" % len(m) if i % 2 == 0 else b"SWTPM_IO_Write: length %d" % len(m)
+        out += b"\n"
+        for j in range(0, len(m), 16):
+            out += b" ".join(b"%02X" % x for x in m[j:j + 16]) + rng.choice([b"", b" "]) + nl
+        if rng.random() < 0.4:
+            out += b"Ctrl Cmd: length 4" + nl + b"00 00 00 01" + nl + b"Ctrl Rsp: length 8" + nl + b"00 00 00 00 00 01 FF FF" + nl
+    return bytes(out)
+
+
+def small_strings(alphabet, maxlen):
+    out = [b""]
+    frontier = [b""]
+    for _ in range(maxlen):
+        frontier = [s + bytes([a]) for s in frontier for a in alphabet]
+        out += frontier
+    return out
+
+
+@runner("C15")
+def c15(R, ctx):
+    C = Cases(R.rng, ctx["tier"])
+    streams = C.streams(n=24, maxpairs=3)
+    fe_reqs, fe_meta = [], []       # text machines: model vs implementation (bytes delivered, accepted?)
+    ev_reqs, ev_ref, ev_meta = [], [], []   # front-end events vs Binary events on the carried bytes
+    for s in streams:
+        data, parts = s[2], s[3]["parts"]
+        ht = render_hex(R.rng, data)
+        fe_reqs.append("fe hex " + h(ht)); fe_meta.append(("hex", ht, data))
+        ev_reqs.append("fevents hex 1 S " + h(ht)); ev_ref.append(data); ev_meta.append(("hex", ht))
+        ev_reqs.append("fevents auto 1 S " + h(ht)); ev_ref.append(data); ev_meta.append(("auto-hex", ht))
+        st = render_swtpm(R.rng, parts, R.rng.choice(["plain", "plain", "withS"]))
+        fe_reqs.append("fe swtpm " + h(st)); fe_meta.append(("swtpm", st, data))
+        ev_reqs.append("fevents swtpm 1 S " + h(st)); ev_ref.append(data); ev_meta.append(("swtpm", st))
+        ev_reqs.append("fevents auto 1 S " + h(data)); ev_ref.append(data); ev_meta.append(("auto-binary", data))
+        # pcapng: mssim trailer on responses, runts in between
+        pl, carried = [], b""
+        for i, m in enumerate(parts):
+            if R.rng.random() < 0.25:
+                pl.append(bytes(R.rng.randrange(256) for _ in range(R.rng.randrange(0, 10))))
+            pl.append(m + (b"\x00\x00\x00\x00" if (i % 2 == 1 and R.rng.random() < 0.5) else b""))
+            carried += m
+        pls = ",".join(h(p) for p in pl)
+        fe_reqs.append("fe pcap " + pls); fe_meta.append(("pcap", pls, carried))
+        ev_reqs.append("fevents pcap 1 S " + pls); ev_ref.append(carried); ev_meta.append(("pcap", pls))
+        ev_reqs.append("fevents autopcap 1 S " + pls); ev_ref.append(carried); ev_meta.append(("auto-pcap", pls))
+    # malformed text
+    for _ in range(40):
+        s = R.rng.choice(streams)[2][:R.rng.randrange(1, 30)]
+        t = bytearray(render_hex(R.rng, s))
+        op = R.rng.random()
+        if op < 0.3 and t:
+            t[R.rng.randrange(len(t))] = R.rng.choice(b"+-gGxX_.,#")
+        elif op < 0.6:
+            t += R.rng.choice([b"f", b"0 ", b"+f", b"-1", b"0x", b"1_"])
+        else:
+            t = t[:max(0, len(t) - 1)]
+        fe_reqs.append("fe hex " + h(t)); fe_meta.append(("hex-malformed", bytes(t), None))
+        ev_reqs.append("fevents hex 1 S " + h(t)); ev_ref.append(None); ev_meta.append(("hex-malformed", bytes(t)))
+    # all short strings over small alphabets for the two text machines and the detector
+    n = 3 if ctx["tier"] == "quick" else 5
+    for t in small_strings(b"8aFg+ \n", n):
+        fe_reqs.append("fe hex " + h(t)); fe_meta.append(("hex-small", t, None))
+        fe_reqs.append("fe auto " + h(t)); fe_meta.append(("auto-small", t, None))
+    for t in small_strings(b"SW8C t\nA", n):
+        fe_reqs.append("fe swtpm " + h(t)); fe_meta.append(("swtpm-small", t, None))
+    for pre in (b"SWTPM_IO\n", b"SWTPM_IO x\n8", b"xSWTPM_I", b"SSWTPM_IO\n", b"SWTPM_SWTPM_IO\n"):
+        for t in small_strings(b"0A Ct\nS", 2 if ctx["tier"] == "quick" else 3):
+            fe_reqs.append("fe swtpm " + h(pre + t)); fe_meta.append(("swtpm-small", pre + t, None))
+    fimpl = common.run_impl("impl_worker", fe_reqs)
+    fmodel = common.run_model(fe_reqs) if ctx["driver_ok"] else fimpl
+    flagged = set()
+    for k, (kind, text, carried) in enumerate(fe_meta):
+        r = fimpl[k]
+        if carried is not None:
+            want = h(carried) + ("|1" if kind != "pcap" else "")
+            if r != want:
+                flagged.add(k)
+                R.violation("c15:%s:bytes" % kind, "%s front-end delivers %s..., the container carries %s..." % (kind, r[:60], want[:60]),
+                            {"kind": kind, "text_hex": text if isinstance(text, str) else h(text), "implementation": r, "expected": want,
+                             "how": "harness/impl_worker.py: " + fe_reqs[k][:100]})
+        elif kind == "hex-malformed" or kind == "hex-small":
+            # independent oracle: accepted iff the non-whitespace characters are an even number of hex digits
+            body = bytes(c for c in text if c not in b" \t\n\r\x0b\x0c")
+            good = len(body) % 2 == 0 and all(c in b"0123456789abcdefABCDEF" for c in body)
+            want = (h(bytes.fromhex(body.decode())) + "|1") if good else None
+            if (good and r != want) or (not good and not r.endswith("|0")):
+                flagged.add(k)
+                R.violation("c15:hex:" + ("rejects-valid" if good else "accepts-invalid"), "hex text %r: front-end gives %s" % (text[:40], r[:80]),
+                            {"kind": kind, "text_hex": h(text), "implementation": r, "expected": want or "<delivered bytes>|0 (ValueError)"})
+        elif kind == "auto-small":
+            body = bytes(c for c in text if c not in b" \t\n\r\x0b\x0c")
+            if len(text) >= 2 and text[:2] != b"\n\r":
+                want = "hex" if (len(body) >= 2 and all(c in b"0123456789abcdefABCDEF" for c in body[:2])) else "binary"
+                if r != want:
+                    flagged.add(k)
+                    R.violation("c15:auto:detect", "auto-detection of %r says %s, expected %s" % (text, r, want), {"text_hex": h(text), "implementation": r})
+    bad = [k for k in range(len(fe_reqs)) if fimpl[k] != fmodel[k]]
+    # events through the front-ends
+    eimpl = common.run_impl("impl_worker", ev_reqs)
+    ref_reqs = ["dec cur 1 S " + h(b) for b in ev_ref if b is not None]
+    ref = iter(common.run_impl("impl_worker", ref_reqs))
+    for k, (kind, text) in enumerate(ev_meta):
+        if ev_ref[k] is None:
+            if not eimpl[k].endswith("VALUEERROR"):
+                # malformed hex text must be rejected with ValueError (a text that happens to be well-formed is fine)
+                body = bytes(c for c in text if c not in b" \t\n\r\x0b\x0c")
+                good = len(body) % 2 == 0 and all(c in b"0123456789abcdefABCDEF" for c in body)
+                if not good:
+                    R.violation("c15:hex:not-rejected", "malformed hex text %r was not rejected with ValueError: %s" % (text[:40], eimpl[k][-80:]),
+                                {"text_hex": h(text), "implementation": eimpl[k]})
+            continue
+        want = no_pulled(next(ref))
+        if eimpl[k] != want:
+            R.violation("c15:%s:events" % kind, "decoding through the %s front-end differs from decoding the carried bytes directly" % kind,
+                        {"kind": kind, "container": text if isinstance(text, str) else h(text), "implementation": eimpl[k][-300:], "expected": want[-300:]})
+    R.coverage.update({"correspondence_cases": len(fe_reqs), "correspondence_disagreements": len(bad),
+                       "correspondence_compares": "bytes delivered by the hex / swtpm scanners and whether the text was rejected; detected format; trimmed pcap payloads",
+                       "frontend_event_comparisons": len(ev_reqs),
+                       "evaluations": len(fe_reqs) + len(ev_reqs), "distinct_nontrivial": len(set(fe_reqs)) + len(set(ev_reqs)),
+                       "rule": "generated streams rendered as hex text (random case/whitespace between and inside pairs), swtpm logs (free text, Ctrl sections, CRLF), pcapng (IP and Ethernet encapsulation, mssim trailers, runts) and fed through Auto; malformed hex text; all strings up to length %d over small alphabets for the text machines and the detector; distinct = distinct requests" % n,
+                       "distribution": dict(Counter(m[0] for m in fe_meta)),
+                       "samples": [{"request": fe_reqs[0][:160], "implementation": fimpl[0][:80]}, {"request": fe_reqs[-1], "implementation": fimpl[-1]}]})
+    for k in bad:
+        if k not in flagged:
+            R.violation("correspondence:C15", "model and implementation differ on `%s`: impl=%r model=%r" % (fe_reqs[k][:200], fimpl[k][:120], fmodel[k][:120]),
+                        {"request": fe_reqs[k], "implementation": fimpl[k], "model": fmodel[k], "theorem": "correspondence Model/Frontends.v"}, found_input=False)
             break
